@@ -2,7 +2,7 @@
    Selectors < 100 run the model; selectors >= 100 evaluate a law on the
    implementation's own results.  Field tags (-100-i) locate a disagreement. *)
 From Coq Require Import ZArith List Bool.
-From V Require Import Base.Codec C19.Model C19.Laws.
+From V Require Import Base.Codec C19.Model C19.Laws C19.Reporter C19.ReporterLaws.
 Import ListNotations.
 Open Scope Z_scope.
 
@@ -44,6 +44,31 @@ Definition eCout (o : cout) : list Z :=
 Definition eHout (o : hout * list Z) : list Z :=
   tag 11 ++ [h_err (fst o)] ++ eNat (h_tried (fst o)) ++ eList eCall (h_calls (fst o)) ++ eList eZ (snd o).
 
+
+Definition dNode : dec node :=
+  let* l := dZ in let* ac := dZ in let* am := dZ in let* an := dOpt (dList dZ) in
+  let* xc := dOpt dZ in let* xm := dOpt dZ in ret (mkNode l ac am an xc xm).
+
+Definition dPop : dec pop :=
+  let* t := dZ in
+  if t =? 1 then
+    let* ne := dBool in let* pe := dBool in let* po := dZ in let* uc := dZ in let* um := dZ in
+    ret (PSample ne pe po uc um)
+  else if t =? 2 then let* f := dZ in ret (PReport f)
+  else if t =? 3 then let* k := dZ in let* l := dList dZ in ret (PTypes k l)
+  else if t =? 4 then let* en := dBool in let* ne := dBool in let* f := dZ in ret (PReporterCfg en ne f)
+  else if t =? 5 then let* l := dZ in ret (PSetLabel l)
+  else if t =? 6 then let* c := dZ in let* m := dZ in ret (PSetAlloc c m)
+  else if t =? 7 then let* a := dOpt (dList dZ) in ret (PSetAnnot a)
+  else if t =? 8 then let* r := dZ in ret (PRestart r)
+  else fail.
+
+Definition eOptZ (o : option Z) : list Z := eOpt eZ o.
+
+Definition ePout (o : pout * node) : list Z :=
+  tag 31 ++ eOpt ePair (o_ev (fst o)) ++ eBool (o_handled (fst o)) ++ [o_err (fst o)] ++
+  [n_label (snd o)] ++ eOptZ (n_xcpu (snd o)) ++ eOptZ (n_xmem (snd o)) ++ [1].
+
 Definition count_true (l : list (Z * bool)) : Z := Z.of_nat (length (filter (fun c => snd c) l)).
 
 Definition entry (sel : Z) (toks : list Z) : list Z :=
@@ -71,6 +96,17 @@ Definition entry (sel : Z) (toks : list Z) : list Z :=
              | ClFuel => tag 29
              end
          | None => bad_input end
+  (* whole pipeline: ratio, pods, initial node, steps; the queue is printed after every step *)
+  | 4 => match run_dec (let* r := dZ in let* ps := dList dPod in let* n := dNode in
+                        let* ops := dList dPop in ret (r, ps, n, ops)) toks with
+         | Some (r, ps, n, ops) =>
+             (fix go (s : pstate) (l : list pop) : list Z :=
+                match l with
+                | [] => tag 32
+                | o :: rest => let '(s1, out) := pstep ps s o in
+                               ePout (out, ps_n s1) ++ eList ePair (c_queue (ps_c s1)) ++ go s1 rest
+                end) (pinit r n) ops
+         | None => bad_input end
   (* ---- laws on the implementation's results ---- *)
   | 101 => match run_dec (let* r := dZ in let* po := dZ in let* ps := dList dPod in
                           let* ac := dZ in let* am := dZ in let* uc := dZ in let* um := dZ in
@@ -93,6 +129,31 @@ Definition entry (sel : Z) (toks : list Z) : list Z :=
   | 111 => match run_dec (let* ps := dList dPod in let* cs := dList dCall in
                           let* af := dList dZ in ret (ps, cs, af)) toks with
            | Some (ps, cs, af) => eBool (law_cleanup ps cs af)
+           | None => bad_input end
+  | 120 => match run_dec (let* r := dZ in let* a := dZ in let* b := dZ in let* k := dBool in
+                          let* xc := dOpt dZ in let* xm := dOpt dZ in ret (r, a, b, k, xc, xm)) toks with
+           | Some (r, a, b, k, xc, xm) => eBool (law_node_bounds r a b k xc xm)
+           | None => bad_input end
+  | 121 => match run_dec (let* f := dBool in let* bc := dOpt dZ in let* bm := dOpt dZ in
+                          let* ac := dOpt dZ in let* am := dOpt dZ in let* ev := dPair dZ dZ in
+                          ret (f, bc, bm, ac, am, ev)) toks with
+           | Some (f, bc, bm, ac, am, ev) => eBool (law_report_step f bc bm ac am ev)
+           | None => bad_input end
+  | 122 => match run_dec (let* cfg := dList dZ in let* an := dOpt (dList dZ) in
+                          let* ac := dOpt dZ in let* am := dOpt dZ in ret (cfg, an, ac, am)) toks with
+           | Some (cfg, an, ac, am) => eBool (law_switched_off cfg an ac am)
+           | None => bad_input end
+  | 123 => match run_dec (let* bl := dZ in let* bc := dOpt dZ in let* bm := dOpt dZ in
+                          let* al := dZ in let* ac := dOpt dZ in let* am := dOpt dZ in
+                          ret (bl, bc, bm, al, ac, am)) toks with
+           | Some (bl, bc, bm, al, ac, am) => eBool (law_untouched bl bc bm al ac am)
+           | None => bad_input end
+  | 124 => match run_dec (let* al := dZ in let* ac := dOpt dZ in let* am := dOpt dZ in ret (al, ac, am)) toks with
+           | Some (al, ac, am) => eBool (law_cleanup_node al ac am)
+           | None => bad_input end
+  | 125 => match run_dec (let* r := dZ in let* a := dZ in let* b := dZ in let* q := dList (dPair dZ dZ) in
+                          let* ac := dOpt dZ in let* am := dOpt dZ in ret (r, a, b, q, ac, am)) toks with
+           | Some (r, a, b, q, ac, am) => eBool (law_node_strict r a b q ac am)
            | None => bad_input end
   | _ => bad_input
   end.
